@@ -1,0 +1,14 @@
+//go:build verif
+
+// Contracts for this plugin, checked by /verif/govc (comment-only file).
+
+package staticroute
+
+//@ func Handler4
+//@   implements handler.Handler4
+//@   requires routes_ok(routes)
+//@   modifies everything
+//@   ensures ret0 == resp && !ret1
+//@   ensures[C17:routes-when-configured] len(routes) > 0 ==> has(resp.Options, 121)
+//@   ensures[C17:routes-only-when-configured] len(routes) == 0 ==> ((has(resp.Options, 121) <==> old(has(resp.Options, 121))) && resp.Options[121] == old(resp.Options[121]))
+//@   ensures[C17:other-options-untouched] forall k uint8: k != 121 ==> ((has(resp.Options, k) <==> old(has(resp.Options, k))) && resp.Options[k] == old(resp.Options[k]))
